@@ -17,7 +17,10 @@ Tr == T.traces[tid]
 P == Tr.pol
 Max(a, b) == IF a > b THEN a ELSE b
 
-St0 == [n |-> 0, t0 |-> -1, tfail |-> -1, lastexc |-> "none", stopped |-> FALSE, bad |-> "ok"]
+(* per input event of the failing step: executions so far, first start, last failure time, last exception *)
+St0 == [n |-> <<>>, t0 |-> <<>>, tfail |-> <<>>, lastexc |-> <<>>, bad |-> "ok"]
+Get(f, k, d) == IF k \in DOMAIN f THEN f[k] ELSE d
+Put(f, k, v) == [x \in (DOMAIN f) \cup {k} |-> IF x = k THEN v ELSE f[x]]
 
 (* first candidate <<name, violated?>> that is violated and not switched off *)
 Pick(cands, dflt) ==
@@ -26,28 +29,35 @@ Pick(cands, dflt) ==
 
 Apply(s, r) ==
   CASE r.e = "step_start" /\ r.step = P.step ->
-         LET first == s.n = 0
-             t0 == IF first THEN r.t ELSE s.t0
-         IN [s EXCEPT !.n = @ + 1, !.t0 = t0,
-                      !.bad = Pick(<< <<"retry_numbers_not_consecutive", r.retry # s.n>>,
-                                      <<"retry_info_last_exception_wrong", (~first /\ r.ri_last_exc # s.lastexc) \/ (first /\ r.ri_last_exc # "none")>>,
+         LET u == r.uid
+             n == Get(s.n, u, 0)
+             first == n = 0
+             t0 == IF first THEN r.t ELSE s.t0[u]
+             tf == Get(s.tfail, u, -1)
+         IN [s EXCEPT !.n = Put(@, u, n + 1), !.t0 = Put(@, u, t0),
+                      !.bad = Pick(<< <<"retry_numbers_not_consecutive", r.retry # n>>,
+                                      <<"retry_info_last_exception_wrong", (~first /\ r.ri_last_exc # Get(s.lastexc, u, "none")) \/ (first /\ r.ri_last_exc # "none")>>,
                                       <<"retry_info_elapsed_wrong", r.ri_elapsed_ms # r.t - t0>>,
                                       <<"non_retryable_error_retried", ~first /\ ~P.retryable>>,
-                                      <<"more_attempts_than_budget", ~first /\ P.n # -1 /\ s.n >= Max(P.n, 1)>>,
-                                      <<"retried_after_delay_elapsed", ~first /\ P.d_ms # -1 /\ s.tfail - s.t0 >= P.d_ms>> >>, @)]
+                                      <<"more_attempts_than_budget", ~first /\ P.n # -1 /\ n >= Max(P.n, 1)>>,
+                                      <<"retried_after_delay_elapsed", ~first /\ P.d_ms # -1 /\ tf - t0 >= P.d_ms>> >>, @)]
     [] r.e = "step_end" /\ r.step = P.step /\ r.failed ->
-         [s EXCEPT !.tfail = r.t, !.lastexc = r.exc]
+         [s EXCEPT !.tfail = Put(@, r.uid, r.t), !.lastexc = Put(@, r.uid, r.exc)]
     [] r.e = "pub" /\ r.p.k = "failed" /\ r.p.step = P.step ->
-         [s EXCEPT !.stopped = TRUE,
-                   !.bad = Pick(<< <<"reported_attempts_wrong", r.p.attempts # s.n>>,
-                                   <<"reported_elapsed_wrong", r.p.elapsed_ms # s.tfail - s.t0>>,
-                                   <<"fewer_attempts_than_budget", P.always /\ P.retryable /\ P.n # -1 /\ P.d_ms = -1 /\ s.n # Max(P.n, 1)>>,
-                                   <<"stopped_before_delay_elapsed", P.always /\ P.retryable /\ P.n = -1 /\ P.d_ms # -1 /\ s.tfail - s.t0 < P.d_ms>> >>, @)]
+         (* the failing input is the one whose failure is the most recent *)
+         LET cand == {u \in DOMAIN s.tfail : \A v \in DOMAIN s.tfail : s.tfail[v] <= s.tfail[u]}
+             u == CHOOSE x \in cand : TRUE
+         IN IF cand = {} THEN s ELSE
+            [s EXCEPT !.bad = Pick(<< <<"reported_attempts_wrong", Cardinality(cand) = 1 /\ r.p.attempts # s.n[u]>>,
+                                      <<"reported_elapsed_wrong", Cardinality(cand) = 1 /\ r.p.elapsed_ms # s.tfail[u] - s.t0[u]>>,
+                                      <<"fewer_attempts_than_budget", Cardinality(cand) = 1 /\ P.always /\ P.retryable /\ P.n # -1 /\ P.d_ms = -1 /\ s.n[u] # Max(P.n, 1)>>,
+                                      <<"stopped_before_delay_elapsed", Cardinality(cand) = 1 /\ P.always /\ P.retryable /\ P.n = -1 /\ P.d_ms # -1 /\ s.tfail[u] - s.t0[u] < P.d_ms>> >>, @)]
     [] r.e = "step_start" /\ r.ty = "Failed" /\ r.sf.step = P.step ->       \* the handler received the StepFailedEvent
-         [s EXCEPT !.stopped = TRUE,
-                   !.bad = Pick(<< <<"reported_attempts_wrong", r.sf.attempts # s.n>>,
-                                   <<"reported_elapsed_wrong", r.sf.elapsed_ms # s.tfail - s.t0>>,
-                                   <<"fewer_attempts_than_budget", P.always /\ P.retryable /\ P.n # -1 /\ P.d_ms = -1 /\ s.n # Max(P.n, 1)>> >>, @)]
+         LET u == r.sf_input IN
+         IF u \notin DOMAIN s.n THEN s ELSE
+         [s EXCEPT !.bad = Pick(<< <<"reported_attempts_wrong", r.sf.attempts # s.n[u]>>,
+                                   <<"reported_elapsed_wrong", r.sf.elapsed_ms # s.tfail[u] - s.t0[u]>>,
+                                   <<"fewer_attempts_than_budget", P.always /\ P.retryable /\ P.n # -1 /\ P.d_ms = -1 /\ s.n[u] # Max(P.n, 1)>> >>, @)]
     [] OTHER -> s
 
 Init == tid \in 1..Len(T.traces) /\ l = 1 /\ st = St0 /\ verdict = "ok"
